@@ -169,24 +169,19 @@ class Runner:
         r = sh(["goto-cc", "-o", gb, "--function", ob.func] + objs)
         if r.returncode != 0:
             return None, "link failed:\n" + r.stdout[-3000:]
-        if ob.replace_calls:
-            gb3 = os.path.join(d, "harness_rc.gb")
-            cmd = ["goto-instrument"]
-            for (a, b) in ob.replace_calls:
-                cmd += ["--replace-calls", "%s:%s" % (a, b)]
-            r = sh(cmd + [gb, gb3])
-            if r.returncode != 0:
-                return None, "replace-calls failed:\n" + r.stdout[-3000:]
-            gb = gb3
-        if ob.fp_restrict:
-            gb2 = os.path.join(d, "harness_fp.gb")
+        if ob.replace_calls or ob.fp_restrict:
+            # one goto-instrument pass for both (a second pass would find the function pointer
+            # calls already lowered)
+            gb3 = os.path.join(d, "harness_inst.gb")
             cmd = ["goto-instrument"]
             for x in ob.fp_restrict:
                 cmd += ["--restrict-function-pointer", x]
-            r = sh(cmd + [gb, gb2])
+            for (a_, b_) in ob.replace_calls:
+                cmd += ["--replace-calls", "%s:%s" % (a_, b_)]
+            r = sh(cmd + [gb, gb3])
             if r.returncode != 0:
-                return None, "function pointer restriction failed:\n" + r.stdout[-3000:]
-            gb = gb2
+                return None, "goto-instrument (fp restriction / replace-calls) failed:\n" + r.stdout[-3000:]
+            gb = gb3
         # drop unreachable functions now, so that loop listings (unwindset) and CBMC see the
         # same set of functions
         gbd = os.path.join(d, "harness_d.gb")
